@@ -582,7 +582,8 @@ class VmdkSuite(Suite):
 
     def generate(self, rng, tier):
         n = 2200 if tier == "thorough" else 170
-        return [gen_case(rng, tier) for _ in range(n)]
+        from harness.readers import with_twins
+        return with_twins([gen_case(rng, tier) for _ in range(n)], rng)
 
     # -- implementation side
     def impl(self, case):
